@@ -34,3 +34,5 @@ func verifMonitor(name string, on bool)
 func verifGuardMap(mu interface{}, m interface{})
 func verifGuardPtr(mu interface{}, p interface{})
 func verifNoteU(msg string, v uint64)
+func verifLoad32(b []byte, off int) uint32
+func verifByteAt(b []byte, off int) uint8
